@@ -1,15 +1,41 @@
+mod c18;
+mod check;
 mod refmqtt;
 mod simnet;
-mod world;
 mod smoke;
+mod world;
+
+use check::Tier;
+
+fn tier(s: Option<&String>) -> Tier {
+    match s.map(|s| s.as_str()) {
+        Some("thorough") => Tier::Thorough,
+        _ => Tier::Quick,
+    }
+}
 
 fn main() {
     let args: Vec<String> = std::env::args().collect();
-    match args.get(1).map(|s| s.as_str()) {
-        Some("smoke") => smoke::run(),
-        _ => {
-            eprintln!("usage: mc <cmd>");
-            std::process::exit(2);
+    let code = match args.get(1).map(|s| s.as_str()) {
+        Some("smoke") => {
+            smoke::run();
+            0
         }
-    }
+        Some("selftest") => smoke::selftest(),
+        Some("check") => {
+            let t = tier(args.get(3));
+            match args.get(2).map(|s| s.as_str()) {
+                Some("C18") => c18::run(t),
+                other => {
+                    eprintln!("unknown property {other:?}");
+                    2
+                }
+            }
+        }
+        _ => {
+            eprintln!("usage: mc check <ID> <quick|thorough> | mc replay <file> | mc smoke");
+            2
+        }
+    };
+    std::process::exit(code);
 }
